@@ -13,10 +13,12 @@ constant shortcut of `condexpr`, of the `TNUMBER` case of `primaryexpr` and of `
 * `+ - *` and comparisons are computed on `Nat`/`Int` with explicit reduction modulo `2^64`;
   `& | ^ << >>` and the mask / sign-extension idioms of `cast` use the `Nat` bit operations.
 * A type is what `eval.c` looks at: `prop & PROPINT` with `size` and `issigned`, `prop & PROPFLOAT`
-  with `size`, `kind == TYPEPOINTER`, or anything else.  `_Bool` is `int 1 false` here, exactly as
-  in `type.c` (`INTTYPE(TYPEBOOL, 1, false, 0)`): eval.c cannot tell it from `unsigned char`.
+  with `size`, `kind == TYPEPOINTER`, `kind == TYPEBOOL`, or anything else.  `_Bool` is a `PROPINT`
+  type of size 1, unsigned (`INTTYPE(TYPEBOOL, 1, false, 0)`): everything except the conversion
+  TO `_Bool` (`EXPRCAST` with `t->kind == TYPEBOOL`) treats it as an 8-bit unsigned type.
 * Results that are not values: `Expr.error` = `error()` was called (exit status 1),
-  `Expr.bad` = the host C program has undefined behaviour at this point (see `eval`, case `add`).
+  `Expr.bad` = `fatal("internal error …")` or an operation undefined on the host (not reachable
+  from trees the parser builds; see `undefined_left_unfolded`).
 -/
 
 namespace CprocVerif.Eval
@@ -26,16 +28,17 @@ def W : Nat := 2 ^ 64
 
 /-- What eval.c distinguishes about `struct type`. -/
 inductive Ty
-  | int (size : Nat) (signed : Bool)   -- PROPINT (incl. `_Bool`, enum types)
+  | int (size : Nat) (signed : Bool)   -- PROPINT (incl. enum types), except:
+  | bool                               -- TYPEBOOL (PROPINT, size 1, unsigned)
   | flt (size : Nat)                   -- PROPFLOAT: 4, 8, 16
   | ptr                                -- TYPEPOINTER
   | other                              -- void, struct, nullptr_t, ...
 deriving DecidableEq, Repr, Inhabited
 
 /-- How a C integer type `(bits, signed)` appears to eval.c: `size` in bytes (1 for `_Bool`). -/
-def tyOf (t : CprocVerif.CInt.IntTy) : Ty := .int (if t.bits = 1 then 1 else t.bits / 8) t.signed
+def tyOf (t : CprocVerif.CInt.IntTy) : Ty := if t.bits = 1 then .bool else .int (t.bits / 8) t.signed
 
-def Ty.isInt : Ty → Bool | .int _ _ => true | _ => false
+def Ty.isInt : Ty → Bool | .int _ _ => true | .bool => true | _ => false
 def Ty.isFlt : Ty → Bool | .flt _ => true | _ => false
 def Ty.isSigned : Ty → Bool | .int _ s => s | _ => false
 
@@ -52,6 +55,7 @@ structure FloatOps (F : Type) where
   le : F → F → Bool
   eq : F → F → Bool
   ofInt : Int → F             -- `(double)i` / `(double)u` of the mathematical value
+  ofIntF32 : Int → F          -- `(float)i` / `(float)u`: one rounding, widened back to `double`
   toInt : F → Int             -- truncation; only used inside the range checks of `eval`
   toF32 : F → F               -- `(float)x` widened back to `double`
 
@@ -81,6 +85,7 @@ def cast {F} (ops : FloatOps F) (ty : Ty) (x : Nat) : Nat :=
   match ty with
   | .flt size => if size = 4 then ops.bits (ops.toF32 (ops.ofBits x)) else x
   | .int size signed => castInt size signed x
+  | .bool => castInt 1 false x
   | _ => x
 
 /-! ## `unary`, `binary` -/
@@ -194,22 +199,24 @@ def Expr.isFail : Expr → Bool | .error | .bad => true | _ => false
 
 /-- `EXPRCAST` with a constant operand `l` of type `lty`, to type `t`. -/
 def castConst {F} (ops : FloatOps F) (lty t : Ty) (l : Nat) : Expr :=
-  match lty, t with
-  | .int _ ls, .flt _ =>
-      .const t (cast ops t (ops.bits (ops.ofInt (if ls then toI l else (l : Int)))))
-  | .flt _, .int _ ts =>
-      let f := ops.ofBits l
-      if ts then
-        (if ops.le (ops.ofInt (-(2 ^ 63))) f && ops.lt f (ops.ofInt (2 ^ 63))
-         then .const t (cast ops t (ofI (ops.toInt f))) else .error)
-      else
-        (if ops.le (ops.ofInt 0) f && ops.lt f (ops.ofInt (2 ^ 64))
-         then .const t (cast ops t (ofI (ops.toInt f))) else .error)
-  | _, _ => .const t (cast ops t l)
+  if t = .bool then
+    .const t (cast ops t (b2n (istrue ops lty l)))              -- `t->kind == TYPEBOOL`
+  else if lty.isInt = true ∧ t.isFlt = true then
+    let v : Int := if lty.isSigned then toI l else (l : Int)
+    .const t (cast ops t (ops.bits (if t = .flt 4 then ops.ofIntF32 v else ops.ofInt v)))
+  else if lty.isFlt = true ∧ t.isInt = true then
+    let f := ops.ofBits l
+    if t.isSigned then
+      (if ops.le (ops.ofInt (-(2 ^ 63))) f && ops.lt f (ops.ofInt (2 ^ 63))
+       then .const t (cast ops t (ofI (ops.toInt f))) else .error)
+    else
+      (if ops.le (ops.ofInt 0) f && ops.lt f (ops.ofInt (2 ^ 64))
+       then .const t (cast ops t (ofI (ops.toInt f))) else .error)
+  else .const t (cast ops t l)
 
 /-- the `TADD`/`TSUB` case of `eval` once both operands are evaluated (`l r` = `expr->u.binary.l/r`). -/
 def evalAddSub {F} (ops : FloatOps F) (op : BinOp) (ty : Ty) (l r : Expr) : Expr :=
-  let swapped := op = .add ∧ r.isBinary = true       -- `c = l, l = r, r = c` on the locals only
+  let swapped := op = .add ∧ r.isBinary = true       -- `c = l, l = r, r = c`, also in the node
   let l1 := if swapped then r else l
   let r1 := if swapped then l else r
   match r1 with
@@ -220,15 +227,13 @@ def evalAddSub {F} (ops : FloatOps F) (op : BinOp) (ty : Ty) (l r : Expr) : Expr
        | some u => .const ty u
        | none => .bad)
     | .binary .add .ptr ll (.const c1ty c1) =>
-      /- `(P + C1) ± C2 -> P + (C1 ± C2)`: `binary(expr->u.binary.r, …)` writes the sum into the node
-      `expr->u.binary.r`.  After the swap that node is the `(P + C1)` node itself, not the
-      constant: its `u.binary.l` is overwritten by the integer and then read back as a pointer. -/
-      if swapped then .bad
-      else match binary ops op c1ty c1 ru rty with
-        | some u => .binary .add ty ll (.const rty u)
-        | none => .bad
-    | _ => .binary op ty l r
-  | _ => .binary op ty l r
+      /- `(P + C1) ± C2 -> P + (C1 ± C2)`: `binary(expr->u.binary.r, …)` writes the sum into the
+      constant node `r` (type `rty`), the flags come from the type of `C1`. -/
+      (match binary ops op c1ty c1 ru rty with
+       | some u => .binary .add ty ll (.const rty u)
+       | none => .bad)
+    | _ => .binary op ty l1 r1
+  | _ => .binary op ty l1 r1
 
 def eval {F} (ops : FloatOps F) : Expr → Expr
   | .const t u => .const t u
@@ -291,10 +296,13 @@ def eval {F} (ops : FloatOps F) : Expr → Expr
 /-- `exprconvert` (type identity stands for `typecompatible`). -/
 def convert (e : Expr) (t : Ty) : Expr := if e.ty = t then e else .cast t e
 
-/-- `condexpr` after both branches were brought to the common type `t`: the constant shortcut. -/
+/-- `condexpr` after both branches were brought to the common type `t`: the constant shortcut
+(`PROPARITH` condition: integer or floating). -/
 def condexpr {F} (ops : FloatOps F) (c l r : Expr) (t : Ty) : Expr :=
   match eval ops c with
-  | .const (.int _ _) u => convert (if u ≠ 0 then l else r) t
+  | .const cty u =>
+    if cty.isInt = true ∨ cty.isFlt = true then convert (if istrue ops cty u then l else r) t
+    else .cond t (.const cty u) l r
   | .error => .error
   | .bad => .bad
   | c' => .cond t c' l r
@@ -302,8 +310,10 @@ def condexpr {F} (ops : FloatOps F) (c l r : Expr) (t : Ty) : Expr :=
 /-- `intconstexpr(s, allowneg)`: `none` = `error()`. -/
 def intconstexpr {F} (ops : FloatOps F) (e : Expr) (allowneg : Bool) : Option Nat :=
   match eval ops e with
-  | .const (.int _ signed) u =>
-    if !allowneg && signed && decide (u >>> 63 ≠ 0) then none else some u
+  | .const t u =>
+    if t.isInt then
+      (if !allowneg && t.isSigned && decide (u >>> 63 ≠ 0) then none else some u)
+    else none
   | _ => none
 
 /-! ## Integer literals: `primaryexpr` (`TNUMBER`), `strtoull`, `inttype`, `typehasint` -/
@@ -330,15 +340,15 @@ def takeDigits (base : Nat) : List Char → List Nat × List Char
 def numVal (base : Nat) (ds : List Nat) : Nat := ds.foldl (fun a d => a * base + d) 0
 
 /-- `strtoull(src, &end, base)` for `base ∈ {2, 8, 10, 16}` on a pp-number (no white space, no
-sign): `none` when no conversion is performed (`end == src`); the value saturates at
-`ULLONG_MAX` (errno is not looked at by the caller). -/
-def strtoull (src : List Char) (base : Nat) : Option (Nat × List Char) :=
+sign): `none` when no conversion is performed (`end == src`); result = (value saturated at
+`ULLONG_MAX`, `errno == ERANGE`, rest). -/
+def strtoull (src : List Char) (base : Nat) : Option (Nat × Bool × List Char) :=
   let s := match src with
     | '0' :: x :: c :: rest =>
       if base = 16 ∧ (x = 'x' ∨ x = 'X') ∧ isDigitOf 16 c = true then c :: rest else src
     | _ => src
   let r := takeDigits base s
-  if r.1 = [] then none else some (min (numVal base r.1) (W - 1), r.2)
+  if r.1 = [] then none else some (min (numVal base r.1) (W - 1), decide (W ≤ numVal base r.1), r.2)
 
 open CprocVerif.CInt (LitTy)
 
@@ -395,10 +405,11 @@ def parseNumber (tok : List Char) : Lit :=
   else
     let src := if base = 2 then tok.drop 2 else tok
     match strtoull src base with
-    | none => .error
-    | some (v, rest) =>
-      match inttype v (base == 10) rest with
-      | some t => .int v t
-      | none => .error
+    | none => .error                             -- invalid integer constant
+    | some (v, erange, rest) =>
+      if erange then .error                      -- integer constant is too large
+      else match inttype v (base == 10) rest with
+        | some t => .int v t
+        | none => .error
 
 end CprocVerif.Eval
